@@ -132,7 +132,7 @@ func runMutatorCase(id string, rnd *rand.Rand, c *chooser, k *kindSpec, v primit
 		} else if fl.Contains(primitive.HeaderFlagTracing) != requested {
 			fail("tracing_flag", step)
 		}
-		if fl.Contains(primitive.HeaderFlagCompressed) && !compressibleKind(k.name) {
+		if fl.Contains(primitive.HeaderFlagCompressed) && !mutatorCompressible(k.name) {
 			fail("compress_flag", step)
 		}
 		h := f.Header
@@ -399,4 +399,9 @@ func cmdMutators(args []string) {
 	for j := 0; j < ns; j++ {
 		hlib.Emit(runStartupCase("s"+strconv.Itoa(j+1), rnd))
 	}
+}
+
+// SetCompress never flags these three kinds (frame.go isCompressible)
+func mutatorCompressible(kind string) bool {
+	return kind != "Startup" && kind != "Options" && kind != "Ready"
 }
